@@ -57,7 +57,7 @@ func (fs *FS) addMount(p string, mountFS hackpadfs.FS) error {
 	fs.mountMu.Lock()
 	defer fs.mountMu.Unlock()
 
-	dir, base := path.Split(p)
+	dir, base := path.Dir(p), path.Base(p)
 	parentFS, subPath := fs.Mount(dir) // get this mount point's parent mount, verify dir exists
 	f, err := parentFS.Open(path.Join(subPath, base))
 	if err != nil {
@@ -91,6 +91,10 @@ func (fs *FS) Mount(path string) (mount hackpadfs.FS, subPath string) {
 }
 
 func (fs *FS) mountPoint(path string) (_ hackpadfs.FS, mountPoint, subPath string) {
+	if !hackpadfs.ValidPath(path) {
+		// not a path at all: no mount point is a prefix of it. The root FS refuses it unchanged.
+		return fs.rootFS, ".", path
+	}
 	var resultPath string
 	resultFS := fs.rootFS
 	fs.mounts.Range(func(key, value interface{}) bool {
